@@ -125,7 +125,7 @@ func c16Scenario() *explore.Scenario {
 				cfg := peer.ClientConfig("example.com")
 				cfg.OmitEmptyPsk = true
 				var unhook func()
-				hs := peer.Run(cfg, n.ID, scfg, peer.Opts{Echo: true, WrapClient: func(e *peer.Endpoint) { ce = e },
+				hs := peer.Run(cfg, n.ID, scfg, peer.Opts{Echo: true, Prepare: withBuildOrder(nil, conn%3), WrapClient: func(e *peer.Endpoint) { ce = e },
 					OnConns: func(u *tls.UConn, s *tls.Conn) {
 						if hrrKind == 2 {
 							hk := &connHooks{addHRRCookie: rep(0xC0, 32)}
